@@ -291,6 +291,14 @@ func RunDispatch(t *testing.T, sc *DScenario) (recs []interface{}, failure strin
 			}
 			callErr := false
 			switch stp.A {
+			case "batch": // three messages handed to the handler in one call (DefaultHandler.SendBatch), numbered by the application
+				var ms []simplefixgo.SendingMessage
+				for j := 0; j < 3; j++ {
+					m := fixgen.NewMarketDataRequest().SetMDReqID("batch" + strconv.Itoa(j))
+					m.HeaderBuilder().SetFieldMsgSeqNum(9000 + nrec*10 + j).SetFieldSenderCompID(ourID).SetFieldTargetCompID(peerID)
+					ms = append(ms, m)
+				}
+				callErr = h.SendBatch(ms) != nil
 			case "send":
 				m := fixgen.NewMarketDataRequest().SetMDReqID("r")
 				if nrec%2 == 1 { // every other one is a message received elsewhere and passed on (populated by parsing, old number in its header)
